@@ -8,14 +8,14 @@ variable (cfg : Cfg) (sfh : Bool)
 def Rng.inI64 (r : Rng) : Prop := I64.min ≤ r.lo ∧ r.hi ≤ I64.max
 def Rng.isSize (r : Rng) : Prop := 0 ≤ r.lo ∧ r.hi ≤ I64.max
 
-/-- fragment of `C04_generalize_partial`: ranges within what the constructors allow (int64 bounds, sizes ≥ 0, FINITE float bounds —
-    the default Float is bounded by ±MaxFloat64, see finding C04-float-infinity) and hereditarily no Variant (its `Generic()` removes
+/-- fragment of `C04_generalize_partial`: ranges within what the constructors allow (int64 bounds, sizes ≥ 0, float bounds that are
+    doubles, the infinities included: the default Float has no bounds, /repo fix of finding C04-float-infinity) and hereditarily no Variant (its `Generic()` removes
     members that became `Equals`; the remaining member accepts the removed one's original only by transitivity) -/
 def Ty.GenOK (t : Ty) : Prop :=
   match t with
   | .variant _ => False
   | .int r | .tspan r => r.inI64
-  | .float lo hi => -Fl.maxFinite ≤ lo ∧ hi ≤ Fl.maxFinite
+  | .float lo hi => -Fl.inf ≤ lo ∧ hi ≤ Fl.inf
   | .coll r => r.isSize
   | .array e r => r.isSize ∧ Ty.GenOK e
   | .hash k v r => r.isSize ∧ Ty.GenOK k ∧ Ty.GenOK v
@@ -139,7 +139,8 @@ theorem gen_asg : ∀ (n : Nat) (t : Ty), t.w ≤ n → Ty.WF cfg t → t.NoAlia
     | float lo hi =>
       unfold Ty.GenOK at gt
       have : asg cfg sfh floatAll (.float lo hi) = true :=
-        viaR cfg sfh rfl (by unfold floatAll asgRecv; simp only [Bool.and_eq_true]; exact ⟨decide_eq_true gt.1, decide_eq_true gt.2⟩)
+        viaR cfg sfh rfl (by unfold floatAll asgRecv; simp only [Bool.and_eq_true]
+                             exact ⟨decide_eq_true (Fl.effLo_default_le gt.1), decide_eq_true (Fl.effHi_le_default gt.2)⟩)
       simp only [generalize, genericType]; exact ⟨this, this⟩
     | int r =>
       unfold Ty.GenOK at gt
